@@ -254,8 +254,6 @@ CONTRACTS['modularity_finetune_und_sign'] = Contract(
         'while flag': {'name': 'sweeps', 'inv': KINV_SIGN},
         'for u in rng.permutation(n)': {'name': 'moves', 'inv': KINV_SIGN},
     },
-    abstract={'m = np.tile(ci, (n, 1))': {}, 'q0 = (W0 - gamma * np.outer(Kn0, Kn0) / s0) * (m == m.T)': {}, 'q1 = (W1 - gamma * np.outer(Kn1, Kn1) / s1) * (m == m.T)': {},
-              'q = d0 * np.sum(q0) - d1 * np.sum(q1)': {'sorts': {'q': 'real'}}},
     ghost_after={
         "ci += 1#0": "ci0 = snapshot(ci)",
         "flag = True#0": "assume(lemma_modularity(W0, ci, n), lemma_modularity(W1, ci, n), lemma_knm_sums(Knm0, W0, ci, n, 'out'), lemma_knm_sums(Knm1, W1, ci, n, 'out'))",
@@ -265,9 +263,17 @@ CONTRACTS['modularity_finetune_und_sign'] = Contract(
                           "assume(lemma_umul_linear(d0, Qrawg(W0, ci, gamma, s0, n), Qrawg(W0, ci_pre, gamma, s0, n)), lemma_umul_linear(d1, Qrawg(W1, ci, gamma, s1, n), Qrawg(W1, ci_pre, gamma, s1, n)), "
                           "lemma_umul_linear(d0, dq0[mb], 0), lemma_umul_linear(d1, dq1[mb], 0))",
         "ci += 1#1": "assume(lemma_relabel_g(W0, ci, ci_before_final, gamma, s0, n), lemma_relabel_g(W1, ci, ci_before_final, gamma, s1, n))",
+        "s1 = np.sum(W1)": "t0 = s0; t1 = s1",
     },
-    ghost_before={"ci[u] = mb + 1": "ci_pre = snapshot(ci)", "_, ci = np.unique(ci, return_inverse=True)#1": "ci_before_final = snapshot(ci)"},
-    ensures=[('C07-signed-quality-not-worse-than-canonicalised-start', (QS % ('result(0)', 'result(0)')).replace(', n)', ', n0)') + " >= " + (QS % ('ci0', 'ci0')).replace(', n)', ', n0)')),
+    ghost_before={"ci[u] = mb + 1": "ci_pre = snapshot(ci)", "_, ci = np.unique(ci, return_inverse=True)#1": "ci_before_final = snapshot(ci)",
+                  # anchored at the return so that an edit of the formula of q is judged against the definition of the signed quality
+                  "return (ci, q)": "assume(lemma_Qrawg_def(q0, W0, ci, Kn0, gamma, s0, n), lemma_Qrawg_def(q1, W1, ci, Kn1, gamma, s1, n))"},
+    ensures=[('C02-q-is-the-signed-quality-of-the-returned-labels', "result(1) == " + (QS % ('result(0)', 'result(0)')).replace(', n)', ', n0)')),
+             ('C02-scaling-of-the-requested-type',
+              "And(t0 == tsum(W0, n0), t1 == tsum(W1, n0), s0 == (t0 if t0 != 0 else 1), s1 == (t1 if t1 != 0 else 1), implies(t0 == 0, d0 == 0), implies(t1 == 0, d1 == 0), "
+              "implies(And(t0 != 0, Or(qtype == 'smp', qtype == 'sta', qtype == 'pos')), d0 == 1 / t0), implies(And(t0 != 0, qtype == 'gja'), d0 == 1 / (t0 + t1)), implies(qtype == 'neg', d0 == 0), "
+              "implies(And(t1 != 0, Or(qtype == 'smp', qtype == 'neg')), d1 == 1 / t1), implies(And(t1 != 0, Or(qtype == 'gja', qtype == 'sta')), d1 == 1 / (t0 + t1)), implies(qtype == 'pos', d1 == 0))"),
+             ('C07-signed-quality-not-worse-than-canonicalised-start', (QS % ('result(0)', 'result(0)')).replace(', n)', ', n0)') + " >= " + (QS % ('ci0', 'ci0')).replace(', n)', ', n0)')),
              ('C02-labels-in-1..k', "forall(lambda y: implies(inr(y, n0), And(result(0)[y] >= 1, result(0)[y] <= n0)))"),
              ('arguments-untouched', "And(unchanged('W'), unchanged('ci'))")])
 
@@ -393,3 +399,92 @@ def _louvain_ghosts(args, result, locs):
 
 
 CONTRACTS['modularity_louvain_und'].concrete_ghosts = _louvain_ghosts
+
+
+# ---- modularity_louvain_und_sign, WHOLE FUNCTION: composition of the hierarchy levels (all five qtypes at once) ------------------------
+# Same architecture as modularity_louvain_und above: the sweeps of a level are used modularly through the fragment contract
+# modularity_louvain_und_sign#level; here: the outer loop, the lists ci / q, relabelling, composition, aggregation of BOTH
+# working matrices, the formula of q and the returned pair.  Signed quality QS(c) = d0 Qrawg(W0o, c, s0) - d1 Qrawg(W1o, c, s1)
+# with W0o / W1o the positive / negative parts of the argument and d0, d1, s0, s1 as the routine sets them for the qtype.
+def _setup_sign_full(eng, st):
+    N = z3.Int('N')
+    st.pc.append(N >= 1)
+    st.env['W'] = alloc(st, 2, z3.Const('W0in', A2R), (N, N), REAL)
+    st.ghost['NN'] = N
+    st.env['gamma'] = z3.Real('gamma')
+    st.env['seed'] = Opaque('seed')
+    bs = {q: z3.Bool('qtype_is_' + q) for q in QTYPES}
+    st.pc.append(z3.AtMost(*bs.values(), 1))
+    st.env['qtype'] = Opaque('strsym', eq=lambda lit: bs.get(lit, z3.BoolVal(False)))
+
+
+QSF = "umul(d0, Qrawg(W0o, %s, gamma, s0, NN)) - umul(d1, Qrawg(W1o, %s, gamma, s1, NN))"
+_LS_OUTER = [
+    ('H-level-index', "h >= 1"),
+    ('LISTS-one-entry-per-level', "And(len(ci) == h + 1, len(q) == h + 1)"),
+    ('SIZES', "And(nh >= 1, nh <= NN, n == NN)"),
+    ('CUR-labels-of-original-nodes', "forall(lambda x: implies(inr(x, NN), And(cur[x] >= 1, cur[x] <= nh, ci[h][x] == cur[x])))"),
+    ('CUR-every-label-1..nh-is-used', "forall(lambda l: implies(And(l >= 0, l < nh), And(inr(wcur[l], NN), cur[wcur[l]] == l + 1)))"),
+    ('W0-W1-are-the-aggregates-of-the-signed-parts', "forall(lambda a, b: implies(And(inr(a, nh), inr(b, nh)), And(W0[a, b] == agg(W0o, cur, a, b, NN), W1[a, b] == agg(W1o, cur, a, b, NN))))"),
+    ('W0-W1-symmetric', "forall(lambda a, b: implies(And(inr(a, nh), inr(b, nh)), And(W0[a, b] == W0[b, a], W1[a, b] == W1[b, a])))"),
+    ('Q-of-level', "And(implies(h >= 2, q[h] == " + (QSF % ('cur', 'cur')) + "), implies(h == 1, And(q[h] == 0, q[h - 1] == -1)))"),
+    ('QMONO-never-below-singletons', (QSF % ('cur', 'cur')) + " >= " + (QSF % ('sing', 'sing'))),
+    ('FRAME-argument-untouched', "unchanged('W')"),
+]
+_COMPOSE_G = ("lemma_agg_compose_g(W0o, curp, W0l, m, cur, gamma, s0, NN, nhl), lemma_agg_compose_g(W1o, curp, W1l, m, cur, gamma, s1, NN, nhl), "
+              "lemma_agg_compose_g(W0o, curp, W0l, lam1(lambda y: y + 1, nhl), curp, gamma, s0, NN, nhl), lemma_agg_compose_g(W1o, curp, W1l, lam1(lambda y: y + 1, nhl), curp, gamma, s1, NN, nhl)")
+CONTRACTS['modularity_louvain_und_sign'] = Contract(
+    MOD, 'modularity_louvain_und_sign', ['W', 'gamma', 'qtype', 'seed'], setup=_setup_sign_full, nonlinear='uf',
+    requires=[('undirected', "forall(lambda x, y: implies(And(inr(x, NN), inr(y, NN)), W[x, y] == W[y, x]))")],
+    use_fragments={'level': dict(contract=CONTRACTS['modularity_louvain_und_sign#level'], bind={'n0': 'nh'}, bind_post={'m0': "lam1(lambda y: y + 1, nh)"},
+                                 declare={'m': ('int1', 'nh')}, ghost_after='m_after_level = snapshot(m)')},
+    loops={
+        'while q[h] - q[h - 1] > 1e-10': {'name': 'levels', 'inv': _LS_OUTER, 'ghosts': ['cur', 'wcur'], 'lists': {'ci': 'h + 1', 'q': ('h + 1', 2)},
+                                          'shapes': {'W0': ('nh', 'nh'), 'W1': ('nh', 'nh')}},
+        'for u in range(nh)#0': {'name': 'compose', 'inv': [
+            ('COMPOSE-done', "forall(lambda x: implies(And(inr(x, NN), curp[x] <= _it), ci[h][x] == m[curp[x] - 1]))"),
+            ('COMPOSE-todo', "forall(lambda x: implies(And(inr(x, NN), curp[x] > _it), ci[h][x] == 0))")]},
+        'for u in range(nh)#1': {'name': 'agg-rows', 'inv': [
+            ('AGG-done', "forall(lambda a, b: implies(And(inr(a, nh), inr(b, nh), Or(a < _it, b < _it)), And(wn0[a, b] == agg(W0, m, a, b, nhl), wn1[a, b] == agg(W1, m, a, b, nhl))))")]},
+        'for v in range(u, nh)': {'name': 'agg-cells', 'inv': [
+            ('AGG-done', "forall(lambda a, b: implies(And(inr(a, nh), inr(b, nh), Or(a < u, b < u)), And(wn0[a, b] == agg(W0, m, a, b, nhl), wn1[a, b] == agg(W1, m, a, b, nhl))))"),
+            ('AGG-current', "forall(lambda b: implies(And(b >= u, b < u + _it), And(wn0[u, b] == agg(W0, m, u, b, nhl), wn0[b, u] == agg(W0, m, b, u, nhl), wn1[u, b] == agg(W1, m, u, b, nhl), wn1[b, u] == agg(W1, m, b, u, nhl))))"),
+            ('u-in-range', "inr(u, nh)")]},
+    },
+    ghost_after={
+        's1 = np.sum(W1)': "W0o = snapshot(W0); W1o = snapshot(W1); t0 = s0; t1 = s1",
+        'nh = n': "sing = lam1(lambda y: y + 1, NN); cur = lam1(lambda y: y + 1, NN); wcur = lam1(lambda l: l, NN); assume(lemma_agg_identity(W0o, cur, NN), lemma_agg_identity(W1o, cur, NN))",
+        'm += 1': "curp = cur; wcurp = wcur; nhl = nh; assume(lemma_relabel_g(W0, m, m_after_level, gamma, s0, nh), lemma_relabel_g(W1, m, m_after_level, gamma, s1, nh))",
+        'for u in range(nh)#0': "cur = lam1(lambda x: m[curp[x] - 1], NN); wcur = lam1(lambda l: wcurp[unique_witness(l)], NN)",
+        'wn1 = np.zeros((nh, nh))': "assume(lemma_agg_symm(W0, m, nhl), lemma_agg_symm(W1, m, nhl))",
+        'W1 = wn1': "assume(lemma_qg_from_aggregate(W0, W0o, cur, gamma, s0, nh, NN), lemma_qg_from_aggregate(W1, W1o, cur, gamma, s1, nh, NN), "
+                    "lemma_umul_linear(d0, Qrawg(W0o, cur, gamma, s0, NN), Qrawg(W0o, curp, gamma, s0, NN)), lemma_umul_linear(d1, Qrawg(W1o, cur, gamma, s1, NN), Qrawg(W1o, curp, gamma, s1, NN)))",
+        'ci_ret += 1': "assume(lemma_relabel_g(W0o, ci_ret, cur, gamma, s0, NN), lemma_relabel_g(W1o, ci_ret, cur, gamma, s1, NN))",
+    },
+    ghost_before={
+        'W0 = wn0': "W0l = snapshot(W0); W1l = snapshot(W1); assume(" + _COMPOSE_G + ")",
+    },
+    ensures=[
+        ('C07-signed-quality-not-worse-than-singletons', (QSF % ('result(0)', 'result(0)')) + " >= " + (QSF % ('sing', 'sing'))),
+        ('C02-q-is-the-signed-quality-of-the-returned-labels', "result(1) == " + (QSF % ('result(0)', 'result(0)'))),
+        ('C02-labels-in-1..k', "And(unique_count() >= 1, unique_count() <= NN, forall(lambda x: implies(inr(x, NN), And(result(0)[x] >= 1, result(0)[x] <= unique_count()))))"),
+        ('C02-every-label-1..k-used', "forall(lambda l: implies(And(l >= 1, l <= unique_count()), And(inr(unique_witness(l - 1), NN), result(0)[unique_witness(l - 1)] == l)))"),
+        # the scaling factors and divisors are those of the requested signed-modularity type (t0, t1: total positive / negative weight)
+        ('C02-scaling-of-the-requested-type',
+         "And(t0 == tsum(W0o, NN), t1 == tsum(W1o, NN), s0 == (t0 if t0 != 0 else 1), s1 == (t1 if t1 != 0 else 1), implies(t0 == 0, d0 == 0), implies(t1 == 0, d1 == 0), "
+         "implies(And(t0 != 0, Or(qtype == 'smp', qtype == 'sta', qtype == 'pos')), d0 == 1 / t0), implies(And(t0 != 0, qtype == 'gja'), d0 == 1 / (t0 + t1)), implies(qtype == 'neg', d0 == 0), "
+         "implies(And(t1 != 0, Or(qtype == 'smp', qtype == 'neg')), d1 == 1 / t1), implies(And(t1 != 0, Or(qtype == 'gja', qtype == 'sta')), d1 == 1 / (t0 + t1)), implies(qtype == 'pos', d1 == 0))"),
+        ('argument-untouched', "unchanged('W')"),
+    ],
+    ensures_raises=[('raises-only-for-an-unknown-type-or-a-runaway-loop', "Or(raised('KeyError'), raised('BCTParamError'))")])
+
+
+def _louvain_sign_ghosts(args, result, locs):
+    import numpy as np
+    W = np.asarray(args['W'], dtype=float)
+    N = len(W)
+    W0, W1 = W * (W > 0), -W * (W < 0)
+    return {'W0o': W0, 'W1o': W1, 'NN': N, 'sing': np.arange(N) + 1, 't0': float(W0.sum()), 't1': float(W1.sum())}
+
+
+CONTRACTS['modularity_louvain_und_sign'].concrete_ghosts = _louvain_sign_ghosts
